@@ -267,6 +267,7 @@ inductive RExpr where
   | sqrt (a : RExpr)
   | asin (a : RExpr)
   | ceil (a : RExpr)
+  | min (a b : RExpr)   -- Python builtin `min(a, b)` of two floats
 deriving DecidableEq, Repr
 
 end EzdxfVerif.Flatten
